@@ -76,8 +76,9 @@ c.finish(
         "Gen_Consts.maxXRefSize/maxGeneration, Gen_Limits.MaxXRefEntries, Gen_C02.defaultOutputOptions are regenerated from the Go source on every run",
     ],
     partial=[
-        "write_read_partial (full statement: Definition write_read_full): proved for Reader.get over the writer's final cross-reference map and the bytes of the file - null for every reference without an in-use entry of its generation, the normalised object for direct objects, dictionary and raw data for streams under all three /Length strategies (the indirect length object is itself read back). Not proved, executed on every case instead (model reader on model writer output = record; real Reader on model files; real Reader on real files = model record): Reader.open (startxref, parsing the xref table / xref stream back into the map), members of object streams, and the filter chain read back from /Filter,/DecodeParms (C06).",
+        "write_read_full (Definition) is proved in these parts: write_read_table_mode - complete for files with an xref table (Reader.open on the bytes, version, Get of every reference over the re-read map: null / normalised object / stream dictionary and raw data under the three /Length strategies); open_xref_stream_mode - Reader.open for xref-stream files (rows decoded back into the serialised map); write_read_partial + write_read_members - Get over the writer's map for direct objects, streams and members of object streams; filter_chain_read_back + stream_data_round_trip - the chain read from /Filter,/DecodeParms and the decoded data. Still only executed (on every case): for xref-stream files the transfer of Get from the writer's map to the re-read map (the stream's own number is free and exempt from decryption there), and trailer Root/Info/ID.",
+        "the syntax hypotheses are restricted to the contexts that occur (a value before LF endobj / LF stream / LF startxref / the next object-stream member) and to well-formed values; C03's syntax_hypotheses_hold proves them for the canonical formatter and the validator's parser (an unrestricted version would be unsatisfiable: 5 LF 0 R reads as a reference).",
         "no_alias_write_inplace_refuted, put_twice_inplace_refuted, append_filter_direct_refuted: the unsafe variants (F1 in-place RC4; append on the caller's slice) are refuted, the variants the code uses now are proved safe.",
-        "write_read_full carries one guard: no /Filter in a dictionary handed to OpenStream (such data is pre-encoded by the caller and a reader decodes that chain too). F18, F32, F33 are fixed; sparse object numbers, deferred *Stream Puts and pre-existing /Filter plus filters are generated on every run as hard requirements.",
+        "findings: a WriteCompressed batch of more than 10000 objects is unreadable (members_bound in write_read_members); operations after Close are accepted.",
     ],
 )
